@@ -30,6 +30,7 @@ CLAUSES = {          # saved WHERE clauses over distinct tags
     "paren_last": "#a (#b | @c)",
     "neg_alt": "!#a | #b",
     "mixed": "#a @c | #b",
+    "paren_both": "(#a | #b) @c | +d (#b | @c)",
 }
 WRAPS = ["W {c}", "S note W {c} O alpha G file", "S # W {c} G @", "W {c} G file section O priority"]
 REFS = ["W {q}", "W #x {q}", "W {q} #x", "W #x {q} +y", "W #x | {q}", "W {q} | #x", "W #x ({q} | +y)", "W !#x {q}", "W ({q}) #x",
@@ -223,6 +224,54 @@ def z3_part(rep, tier):
     return total
 
 
+def history_part(rep):
+    """saved query pages EDITED between two executions in one process and one directory: every expansion reflects the page
+    as it is now (no stale copy), a deleted page is reported again, a page created after a failed lookup is found"""
+    from zorg.service.swog._saved_queries import expand_saved_queries
+    steps = [("write", {"q": "S note W #a O alpha", "inner": "W @c"}, "#a"), ("write", {"q": "W #b | +d G file"}, "#b | +d"),
+             ("write", {"q": "W {inner} #a", "inner": "W @c | %e"}, "{inner} #a"), ("write", {"inner": "W +d"}, "{inner} #a"),
+             ("delete", "q", None), ("write", {"q": "W !#a"}, "!#a")]
+    ref = "W #x {q}"
+    with zreal.TempZdir("c15h") as z:
+        (z / "zoq").mkdir()
+        current = {}
+        for i, (op, arg, clause) in enumerate(steps):
+            t0 = time.time()
+            if op == "write":
+                for name, line in arg.items():
+                    (z / "zoq" / (name + ".zoq")).write_text("# " + line + "\n")
+                    current[name] = line.split("W ", 1)[1].split(" O ")[0].split(" G ")[0]
+            else:
+                (z / "zoq" / (arg + ".zoq")).unlink()
+                current.pop(arg)
+            expanded = expand_saved_queries(z, ref)
+            nm = "history:step%d-%s" % (i, op)
+            if "q" not in current:
+                ok = expanded is None
+                rep.add(nm, "concrete+z3", "unsat" if ok else "sat", "reference to a deleted page: expansion %r" % (expanded,), time.time() - t0,
+                        family="history")
+                if not ok:
+                    rep.violation("after deleting zoq/q.zoq the reference {q} still expands to %r (a missing saved query is silently accepted)" % expanded,
+                                  {"steps": [str(s_) for s_ in steps[:i + 1]], "expanded": expanded})
+                continue
+            if expanded is None or "{" in expanded:
+                rep.add(nm, "concrete+z3", "sat", "expansion %r" % (expanded,), time.time() - t0, family="history")
+                rep.violation("after step %d (%s %r) the reference {q} expands to %r" % (i, op, arg, expanded),
+                              {"steps": [str(s_) for s_ in steps[:i + 1]], "expanded": expanded})
+                continue
+            var = Vars()
+            E = formula_of(compile_where(expanded), var)
+            M = intended(ref, dict(current), var)
+            sv = z3.Solver()
+            sv.add(E != M)
+            res = str(sv.check())
+            rep.add(nm, "concrete+z3", "unsat" if res == "unsat" else "sat", "expanded %r vs saved pages %r" % (expanded, current),
+                    time.time() - t0, family="history")
+            if res != "unsat":
+                rep.violation("after step %d (%s %r) the reference {q} filters like %r, the saved pages now say %r (stale saved query)" % (
+                    i, op, arg, expanded, current), {"steps": [str(s_) for s_ in steps[:i + 1]], "expanded": expanded, "pages": current})
+
+
 def xh_replayer(name, args, kwargs, meta):
     import importlib.util
     spec = importlib.util.spec_from_file_location("c15_h_tbl", H)
@@ -275,6 +324,7 @@ def main():
                  "reference names beyond the spellings q / home-calls / tmp/tmp_A1B / a.b"])
     n = z3_part(rep, tier)
     rep.note("%d equivalence queries" % n)
+    history_part(rep)
     T = 120 if tier == "quick" else 300
     conds = [xh.Cond(H, "scan", timeout=T, meta={"family": "xh"}), xh.Cond(H, "missing", timeout=T, meta={"family": "xh"}),
              xh.Cond(H, "scan", timeout=30, twin=True, meta={"family": "twin"})]
